@@ -80,25 +80,7 @@ func (ex *Exec) execCommon(st *State, c *ssa.CallCommon, site ssa.Value, pos tok
 	}
 	if callee := c.StaticCallee(); callee != nil {
 		name := callee.String()
-		if ex.con != nil && ex.con.Before != nil {
-			if cls := ex.con.Before[callee.Name()]; cls != nil {
-				env := ex.specEnv(st, ex.entry, false)
-				for i, cl := range cls {
-					t, err := env.evalBool(cl.Expr)
-					if err != nil {
-						ex.fail("before %s %q: %v", callee.Name(), cl.Src, err)
-						continue
-					}
-					label := cl.Label
-					if label == "" {
-						label = fmt.Sprintf("%d", i+1)
-					}
-					o := vc.oblige("assert", fmt.Sprintf("assert:%s@%s#%s", ex.conName(), callee.Name(), label), st.guard, t, ex.pos(pos))
-					o.SetNote(cl.Src)
-					ex.beforeSeen[callee.Name()] = true
-				}
-			}
-		}
+		ex.beforeHooks(st, callee.Name(), c, pos)
 		if isLockCall(name) {
 			ex.execLock(st, name, c, pos)
 			return nil
@@ -129,6 +111,7 @@ func (ex *Exec) execCommon(st *State, c *ssa.CallCommon, site ssa.Value, pos tok
 	}
 	if c.IsInvoke() {
 		mname := c.Method.Name()
+		ex.beforeHooks(st, mname, c, pos)
 		if ex.P.isPureMethod(mname, c.Value.Type()) {
 			evalArgs()
 			recv := ex.val(st, c.Value)
@@ -459,7 +442,20 @@ func (ex *Exec) callByContract(st *State, callee *ssa.Function, con *Contract, a
 }
 
 func (ex *Exec) callByIfaceContract(st *State, con *Contract, recv T, args []T, sig *types.Signature, pos token.Pos) []T {
-	ex.havocAll(st, "iface contract "+con.Name)
+	for _, m := range con.Modifies {
+		if m.all {
+			ex.havocAll(st, "iface contract "+con.Name)
+		}
+		if m.allMaps {
+			ex.havocMaps(st)
+		}
+	}
+	ex.vc.assumed["assumed interface contract "+con.Name+" (frame only) for every implementation"] = true
+	ex.usedContracts[con.Name] = true
+	old := ex.ghostGet(st, "alloc")
+	n := ex.vc.fresh("alloc", SInt)
+	ex.vc.assume(st.guard, Ge(n, old))
+	st.ghost["alloc"] = n
 	return ex.havocResults(st, sig, "r.iface")
 }
 
@@ -573,4 +569,41 @@ func (ex *Exec) havocMaps(st *State) {
 		}
 	}
 	ex.mapsHavocked = true
+}
+
+// beforeHooks checks the `before <callee>` assertions of the contract at a call site; $arg0, $arg1, ... are the
+// call's arguments (for methods $arg0 is the receiver).
+func (ex *Exec) beforeHooks(st *State, calleeName string, c *ssa.CallCommon, pos token.Pos) {
+	if ex.con == nil || ex.con.Before == nil {
+		return
+	}
+	cls := ex.con.Before[calleeName]
+	if cls == nil {
+		return
+	}
+	env := ex.specEnv(st, ex.entry, false)
+	var all []ssa.Value
+	if c.IsInvoke() {
+		all = append(all, c.Value)
+	}
+	all = append(all, c.Args...)
+	for i, a := range all {
+		if _, isAddr := ex.locs[a]; isAddr {
+			continue
+		}
+		env.vars[fmt.Sprintf("ĦĦarg%d", i)] = TV{ex.val(st, a), a.Type()}
+	}
+	for i, cl := range cls {
+		t, err := env.evalBool(cl.Expr)
+		if err != nil {
+			ex.fail("before %s %q: %v", calleeName, cl.Src, err)
+			continue
+		}
+		label := cl.Label
+		if label == "" {
+			label = fmt.Sprintf("%d", i+1)
+		}
+		ex.vc.oblige("assert", fmt.Sprintf("assert:%s@%s#%s", ex.conName(), calleeName, label), st.guard, t, ex.pos(pos)).SetNote(cl.Src)
+		ex.beforeSeen[calleeName] = true
+	}
 }
